@@ -225,6 +225,11 @@ def run(chk, replay=None):
                                     we, le = wby.get(s["name"], []), lby.get(s["name"], [])
                                     if len(le) != 1:
                                         continue
+                                    if len(we) == 0 and variant == "gc" and s["dso_ref"] and (s["vs_local"] or s["where"] == "exarch"):
+                                        # GNU ld keeps whatever a shared library on the command line mentions; a DEMOTED symbol cannot be
+                                        # bound from outside, so collecting it changes nothing the property speaks of
+                                        stats["collected_demoted_dso_ref"] = stats.get("collected_demoted_dso_ref", 0) + 1
+                                        continue
                                     if len(we) != 1:
                                         bad.append(f".symtab has {len(we)} entries for {s['name']}, GNU ld has one")
                                         continue
